@@ -2140,6 +2140,242 @@ func pegBoundaryCorpus(g *pegGrammar) []string {
 	return out
 }
 
+// pegCover: strings that between them take every choice point of the grammar (each alternative, an optional part present
+// and absent, a repetition zero, one and two times, each end of each character range and its outside neighbours), every
+// other part minimal, each embedded in the shortest context that reaches its rule from `jsonpath`.  Predicates and
+// ordered choice are ignored when generating (the context-free skeleton): whether a string is derivable is decided by the
+// interpreter, the generator only has to put strings on both sides of every boundary.
+type pegCover struct {
+	g   *pegGrammar
+	min map[string]*string
+	ctx map[string][2]string
+}
+
+func (c *pegCover) classChars(n *pegNode) []rune {
+	var out []rune
+	add := func(r rune) {
+		if r >= 0 && r <= 0x10FFFF && !(r >= 0xD800 && r <= 0xDFFF) {
+			out = append(out, r)
+		}
+	}
+	for _, r := range n.set {
+		add(r[0])
+		add(r[1])
+		add(r[0] - 1)
+		add(r[1] + 1)
+	}
+	add('a')
+	return out
+}
+
+func (c *pegCover) inClass(n *pegNode, r rune) bool {
+	in := false
+	for _, rg := range n.set {
+		if r >= rg[0] && r <= rg[1] {
+			in = true
+		}
+	}
+	return in != n.neg
+}
+
+// minOf: a shortest string of the skeleton of n (nil while unknown)
+func (c *pegCover) minOf(n *pegNode) *string {
+	str := func(s string) *string { return &s }
+	switch n.kind {
+	case "lit":
+		return str(n.text)
+	case "class":
+		for _, r := range append(c.classChars(n), 'b', '0', ' ', '~') {
+			if c.inClass(n, r) {
+				return str(string(r))
+			}
+		}
+		return str("a")
+	case "any":
+		return str("a")
+	case "eps", "not", "and", "star", "opt":
+		return str("")
+	case "plus", "cap":
+		return c.minOf(n.kids[0])
+	case "ref":
+		return c.min[n.text]
+	case "seq":
+		out := ""
+		for _, k := range n.kids {
+			m := c.minOf(k)
+			if m == nil {
+				return nil
+			}
+			out += *m
+		}
+		return &out
+	case "alt":
+		var best *string
+		for _, k := range n.kids {
+			if m := c.minOf(k); m != nil && (best == nil || len(*m) < len(*best)) {
+				best = m
+			}
+		}
+		return best
+	}
+	return str("")
+}
+
+func (c *pegCover) m(n *pegNode) string {
+	if v := c.minOf(n); v != nil {
+		return *v
+	}
+	return ""
+}
+
+// variants: the strings of n in which one choice is made each way, everything else minimal
+func (c *pegCover) variants(n *pegNode) []string {
+	switch n.kind {
+	case "lit":
+		return []string{n.text}
+	case "class":
+		var out []string
+		for _, r := range c.classChars(n) {
+			out = append(out, string(r))
+		}
+		return out
+	case "any":
+		return []string{"a", "é", "\x00", " "}
+	case "eps", "not", "and":
+		return []string{""}
+	case "cap":
+		return c.variants(n.kids[0])
+	case "ref":
+		return []string{c.m(n)}
+	case "opt":
+		return append([]string{""}, c.variants(n.kids[0])...)
+	case "star":
+		one := c.m(n.kids[0])
+		return append([]string{"", one + one}, c.variants(n.kids[0])...)
+	case "plus":
+		one := c.m(n.kids[0])
+		return append([]string{one + one}, c.variants(n.kids[0])...)
+	case "alt":
+		var out []string
+		for _, k := range n.kids {
+			out = append(out, c.variants(k)...)
+		}
+		return out
+	case "seq":
+		var out []string
+		for i, k := range n.kids {
+			before, after := "", ""
+			for _, b := range n.kids[:i] {
+				before += c.m(b)
+			}
+			for _, a := range n.kids[i+1:] {
+				after += c.m(a)
+			}
+			for _, v := range c.variants(k) {
+				out = append(out, before+v+after)
+			}
+		}
+		return out
+	}
+	return []string{""}
+}
+
+// contexts: for every rule reachable from `jsonpath`, a (prefix, suffix) pair of a shortest string around one of its uses
+func (c *pegCover) contexts() {
+	c.ctx = map[string][2]string{"jsonpath": {"", ""}}
+	queue := []string{"jsonpath"}
+	var walk func(n *pegNode, pre, suf string)
+	walk = func(n *pegNode, pre, suf string) {
+		switch n.kind {
+		case "ref":
+			if _, seen := c.ctx[n.text]; !seen && c.g.rules[n.text] != nil {
+				c.ctx[n.text] = [2]string{pre, suf}
+				queue = append(queue, n.text)
+			}
+		case "seq":
+			for i, k := range n.kids {
+				before, after := "", ""
+				for _, b := range n.kids[:i] {
+					before += c.m(b)
+				}
+				for _, a := range n.kids[i+1:] {
+					after += c.m(a)
+				}
+				walk(k, pre+before, after+suf)
+			}
+		case "alt":
+			for _, k := range n.kids {
+				walk(k, pre, suf)
+			}
+		case "star", "plus", "opt", "cap":
+			walk(n.kids[0], pre, suf)
+		}
+	}
+	for len(queue) > 0 {
+		r := queue[0]
+		queue = queue[1:]
+		walk(c.g.rules[r], c.ctx[r][0], c.ctx[r][1])
+	}
+}
+
+func pegCoverCorpus(g *pegGrammar) []string {
+	c := &pegCover{g: g, min: map[string]*string{}}
+	for changed := true; changed; {
+		changed = false
+		for name, body := range g.rules {
+			m := c.minOf(body)
+			if m != nil && (c.min[name] == nil || len(*m) < len(*c.min[name])) {
+				c.min[name] = m
+				changed = true
+			}
+		}
+	}
+	c.contexts()
+	seen := map[string]bool{}
+	var base []string
+	var names []string
+	for name := range c.ctx {
+		names = append(names, name)
+	}
+	sort.Strings(names)
+	for _, name := range names {
+		cx := c.ctx[name]
+		for _, v := range c.variants(g.rules[name]) {
+			s := cx[0] + v + cx[1]
+			if !seen[s] && len(s) < 80 {
+				seen[s] = true
+				base = append(base, s)
+			}
+		}
+	}
+	out := append([]string{}, base...)
+	// every covering string with one character replaced / inserted from the characters the grammar is written with
+	alphabet := []rune("\\'\". []()*?!=<>&|,:-+0a/~@$ e")
+	if !apiThorough {
+		alphabet = []rune("\\'\". ])*a")
+	}
+	for _, b := range base {
+		r := []rune(b)
+		for pos := 0; pos <= len(r); pos++ {
+			for _, ch := range alphabet {
+				ins := string(r[:pos]) + string(ch) + string(r[pos:])
+				if !seen[ins] {
+					seen[ins] = true
+					out = append(out, ins)
+				}
+				if pos < len(r) && r[pos] != ch && apiThorough {
+					sub := string(r[:pos]) + string(ch) + string(r[pos+1:])
+					if !seen[sub] {
+						seen[sub] = true
+						out = append(out, sub)
+					}
+				}
+			}
+		}
+	}
+	return out
+}
+
 func apiCheckGrammar(t *testing.T) {
 	g, err := pegLoad()
 	if err != nil {
@@ -2148,6 +2384,7 @@ func apiCheckGrammar(t *testing.T) {
 	}
 	paths, cfg := apiParseCorpus()
 	paths = append(paths, pegBoundaryCorpus(g)...)
+	paths = append(paths, pegCoverCorpus(g)...)
 	// documented semantic restriction: a comparison never has two current-node operands, whatever the operator and however
 	// the comparison is embedded
 	cur := []string{`@.a`, `@`, `@.a.f()`, `@.a[0]`, `@['a']`, `@.a.b`, `@..a`, `@.*`, `@.a.g()`}
